@@ -334,6 +334,7 @@ def run(chk, prog, tier):
     check_fast_subset(chk, prog)
     check_offsets_monotone(chk, prog)
     check_stale_count(chk, prog)
+    check_notify(chk, prog)
     check_clear_resets(chk, prog)
 
 
@@ -514,3 +515,52 @@ def check_stale_count(chk, prog):
 def rv_ops(rv):
     from ..facts import rv_operands
     return rv_operands(rv)
+
+
+def check_notify(chk, prog):
+    R = chk.rule("R-NOTIFY", "a staged mutation is always announced to the next merge_all: MutationBuffers::stage_insert/stage_remove notify the same table id on every path; "
+                 "Database::new_buffer notifies before handing out the buffer; run_on_tables notifies a table whenever its rebuild/refresh closure returned true (serial and parallel arm); "
+                 "outside egglog_core_relations nobody obtains a buffer through Table::new_buffer (which does not notify)")
+    from ..util import result_branches, region_of_branch
+    for name in ("stage_insert", "stage_remove"):
+        f = prog.need(f"egglog_core_relations::action::MutationBuffers::{name}")
+        st = [c for c in f.calls if c.d.endswith(f"MutationBuffer::{name}")]
+        nt = [c for c in f.calls if c.p.endswith("NotificationList::notify")]
+        ok = bool(st) and bool(nt)
+        if ok:
+            path = RebuildModel._path_to_ret(f, [c.target for c in st if c.target is not None], {c.bb for c in nt}, set())
+            ok = path is None
+            tid = [i for i in range(1, f.argc + 1) if f.locals[i].endswith("TableId")]
+            ok = ok and all(f.origins(c.args[1]) == {("param", tid[0], ())} for c in nt) if tid else False
+        chk.judge(ok, R, f"MutationBuffers::{name}", "staging through an ExecutionState notifies the staged table",
+                  "a row can be staged through an ExecutionState without notifying the table: merge_all never merges it", f.loc)
+        g = prog.need(f"egglog_core_relations::action::ExecutionState::{name}")
+        calls = g.calls_to(f"egglog_core_relations::action::MutationBuffers::{name}")
+        chk.judge(bool(calls), R, f"ExecutionState::{name}", "delegates to MutationBuffers (which notifies)",
+                  f"ExecutionState::{name} no longer stages through MutationBuffers::{name}", g.loc)
+    nb = prog.need("egglog_core_relations::free_join::Database::new_buffer")
+    nt = [c for c in nb.calls if c.p.endswith("NotificationList::notify")]
+    ok = bool(nt) and all(any(nb.dominates(c.bb, r) for c in nt) for r in nb.ret_blocks)
+    chk.judge(ok, R, "Database::new_buffer", "notifies the table before returning a buffer", "Database::new_buffer hands out a buffer without notifying", nb.loc)
+    rt = prog.need("egglog_core_relations::free_join::Database::run_on_tables")
+    n_sites = 0
+    ok = True
+    for g in prog.region(rt):
+        for c in g.calls:
+            if c.d.startswith("core::ops::function::Fn") and "::call" in c.d and len(c.ga) > 1 and "TableInfo" in c.ga[1]:
+                n_sites += 1
+                hit = False
+                for sw, tr, fl in result_branches(g, c):
+                    reg = region_of_branch(g, sw, tr) | {tr}
+                    if any(x.bb in reg and x.p.endswith("NotificationList::notify") for x in g.calls):
+                        hit = True
+                ok = ok and hit
+    chk.judge(ok and n_sites >= 2, R, "Database::run_on_tables", f"{n_sites} call sites of the per-table closure, each notifying the table when it returned true",
+              f"run_on_tables does not notify a table whose rebuild/refresh reported staged changes (sites: {n_sites})", rt.loc)
+    outside = []
+    for f in prog.lib_fns(["egglog_bridge", "egglog"]):
+        for c in f.calls:
+            if c.d.endswith("table_spec::Table::new_buffer") or c.p.endswith("WrappedTable::new_buffer"):
+                outside.append(f"{f.root or f.name} at {c.loc}")
+    chk.judge(not outside, R, "Table::new_buffer:outside-core-relations", "bridge and egglog obtain buffers only through Database::new_buffer / ExecutionState",
+              f"Table::new_buffer (which does not notify) is called outside egglog_core_relations: {outside}", None)
